@@ -7,7 +7,13 @@ correspondence: in-process round trip: the REAL pcp_expand_dirs()+pcp_client() i
                 pcp_server() in another (chroot'ed into a fresh jail), a logging relay in between; the client's byte
                 stream, the reply classes and the complete destination file system are compared with
                 `pdshmodel pcp rt` (sender model + receiver model)
-oracle:         the destination snapshot is compared with the source trees by `pdshmodel pcp spec11` (names, structure,
+                several receivers in ONE process (rpdcp): K real pcp_server() calls as threads, all connections open at
+                once, input interleaved chunk-wise, in half of the cases with two _error() calls forced to overlap (one
+                receiver parked between fdopen and errf until another has reported an error); replies per connection and the joint destination = one model run per
+                connection (theorems receivers_independent / receiver_alone state the product automaton)
+oracle:         (receivers are independent) the replies on each of the K connections equal those of the same real receiver
+                fed the same bytes alone in a process of its own;
+                the destination snapshot is compared with the source trees by `pdshmodel pcp spec11` (names, structure,
                 bytes; permission bits and modification times with -p), independent of both models
 """
 import os
@@ -21,6 +27,7 @@ from vlib.common import HARNESS
 from vlib.pcp import Ent, OLD, hx
 from vlib.seqrun import run_batch
 from checks.c12 import SAN_FLAGS, read_const, probe_variant, variant_text
+from checks.c12 import model_line as c12_model_line
 
 LEVEL = "proof"
 PROPS = "PdshVerif.Props.C11"
@@ -32,7 +39,8 @@ MANIFEST = dict(
     text="Theorems in lean/PdshVerif/Props/C11.lean about the models of pcp_client.c (walk, records) and "
          "pcp_server.c:_sink; the real client and server are run against each other in process on generated source "
          "trees (depth <= 5, fan-out <= 6, sizes around the 8 KiB block, names with blanks and shell metacharacters, "
-         "all mode bits, -p on/off, forward and reverse naming, one or several sources); the client's bytes, the "
+         "all mode bits, -p on/off, forward and reverse naming, one or several sources; 2-4 receivers as threads of "
+         "one process with errors on several connections, as in rpdcp); the client's bytes, the "
          "replies and the destination tree are compared with the models and, independently, the destination with "
          "the source (specification), which yields the failing tree as replay.",
     design_ref="DESIGN.md section 5 C11/C12",
@@ -774,6 +782,227 @@ def run_e2e(ctx, cov, dist):
                 ctx.offender("e2e:fidelity", "target %s: copy differs from the source: %s" % (h, sp[:300]), cj)
         shutil.rmtree(w, ignore_errors=True)
 
+# ------------------------------------------------------------------ several receivers in one process (rpdcp)
+MHOSTS = [b"h1", b"h2", b"n3.dom.ain", b"host7", b"x", b"h10"]
+MNAMES = [b"f1", b"f2", b"f3", b"file one", b"a.b", b"x;y", b"data", b"E"]
+
+
+def gen_multi(rng, k):
+    """rpdcp as the local side sees it: K targets, each sending the same list of names, every name arriving with the
+    `.host` suffix in ONE destination directory; on some targets one name is occupied by a directory (or, for a
+    directory, by a file), which makes that target's receiver answer an error record"""
+    K = rng.choice([2, 2, 2, 3, 3, 4])
+    hosts = rng.sample(MHOSTS, K)
+    names = rng.sample(MNAMES, rng.randint(2, 4))
+    withdir = rng.random() < 0.3
+    nerr = rng.choice([0, 1, 2, 2, 2, K, K])
+    errhosts = set(rng.sample(range(K), min(nerr, K)))
+    c = dict(k=k, multi=True, p=int(rng.random() < 0.5), um=rng.choice([0o22, 0o22, 0o77, 0, 0o27]), conns=[],
+             cut=rng.choice(["records", "records", "random"]))
+    for i, h in enumerate(hosts):
+        files = [(n, rng.choice([0, 1, 5, 100, 3000, 8192, 8193]), rng.choice([0o644, 0o600, 0o755, 0o4711]),
+                  1200000000 + rng.randrange(10 ** 8), rng.randrange(1 << 30)) for n in names]
+        blocked = [rng.choice(names)] if i in errhosts else []
+        if i in errhosts and rng.random() < 0.25:
+            blocked.append(rng.choice(names))
+        c["conns"].append(dict(host=h, files=files, blocked=sorted(set(blocked)), dir=withdir,
+                               dirblocked=withdir and i in errhosts and rng.random() < 0.5,
+                               senddata=rng.random() < 0.1, overwrite=rng.random() < 0.2))
+    c["race"] = None
+    if len(errhosts) >= 2 and rng.random() < 0.5:
+        # forced interleaving of two _error() calls: receiver a is parked inside its first one until receiver b
+        # has been through one of its own
+        c["race"] = tuple(rng.sample(sorted(errhosts), 2))
+    return c
+
+
+def multi_corpus(k0):
+    """pinned: two hosts, one refused file each; once plainly interleaved, once with overlapping _error() calls"""
+    out = []
+    for race in (None, (0, 1), (1, 0)):
+        conns = [dict(host=h, files=[(n, 20 + i, 0o644, 1234567890 + i, 7 * i + j) for i, n in enumerate((b"f1", b"f2", b"f3"))],
+                      blocked=[bl], dir=False, dirblocked=False, senddata=False, overwrite=False)
+                 for j, (h, bl) in enumerate(((b"h1", b"f1"), (b"h2", b"f2")))]
+        out.append(dict(k=k0 + len(out), multi=True, p=0, um=0o22, conns=conns, cut="records", race=race))
+    return out
+
+
+def multi_stream(c, cn):
+    """the records a client sends for the file list (data left out for a refused file, as pcp_sendfile does)"""
+    recs = []
+    for n, size, mode, mt, seed in cn["files"]:
+        name = n + b"." + cn["host"]
+        if c["p"]:
+            recs.append(b"T%d 0 %d 0\n" % (mt, mt + 1))
+        recs.append(b"C%04o %d %s\n" % (mode, size, name))
+        if n not in cn["blocked"] or cn["senddata"]:
+            recs.append(pcp.lcg_bytes(seed, size) + b"\0")
+    if cn["dir"]:
+        if c["p"]:
+            recs.append(b"T1300000000 0 1300000001 0\n")
+        recs.append(b"D0750 0 sub.%s\n" % cn["host"])
+        recs.append(b"C0640 3 k\n")
+        recs.append(b"abc\0")
+        recs.append(b"E\n")
+    if c["cut"] == "records":
+        return recs
+    s = b"".join(recs)
+    r = __import__("random").Random(len(s) * 31 + len(cn["host"]))
+    cuts = sorted(set(r.randrange(1, max(2, len(s))) for _ in range(r.randint(2, 7))))
+    return [x for x in (s[a:b] for a, b in zip([0] + cuts, cuts + [len(s)])) if x]
+
+
+def multi_ents(c):
+    ents = [Ent(b"", "d", 0o755, OLD), Ent(b"o", "d", 0o755, OLD + 1), Ent(b"o/w", "d", 0o755, OLD + 3),
+            Ent(b"o/w/other", "f", 0o600, OLD + 4, b"other"), Ent(b"o/w/dest", "d", 0o755, OLD + 7)]
+    for cn in c["conns"]:
+        for n in cn["blocked"]:
+            ents.append(Ent(b"o/w/dest/" + n + b"." + cn["host"], "d", 0o755, OLD + 30))
+        if cn["dirblocked"]:
+            ents.append(Ent(b"o/w/dest/sub." + cn["host"], "f", 0o644, OLD + 31, b"in the way"))
+        if cn["overwrite"]:
+            n = cn["files"][0][0]
+            if n not in cn["blocked"]:
+                ents.append(Ent(b"o/w/dest/" + n + b"." + cn["host"], "f", 0o600, OLD + 32, b"X" * 9000))
+    return ents
+
+
+def multi_json(c):
+    return dict(multi=True, preserve=c["p"], umask="%o" % c["um"], cut=c["cut"], race=list(c["race"]) if c.get("race") else None,
+                conns=[dict(host=cn["host"].decode(), files=[[f[0].decode("latin-1")] + list(f[1:]) for f in cn["files"]],
+                            blocked=[b.decode("latin-1") for b in cn["blocked"]], dir=cn["dir"],
+                            dirblocked=cn["dirblocked"], senddata=cn["senddata"], overwrite=cn["overwrite"])
+                       for cn in c["conns"]])
+
+
+def multi_from_json(j, k):
+    return dict(k=k, multi=True, p=int(j["preserve"]), um=int(j["umask"], 8), cut=j["cut"],
+                race=tuple(j["race"]) if j.get("race") else None,
+                conns=[dict(host=cn["host"].encode(), files=[tuple([f[0].encode("latin-1")] + f[1:]) for f in cn["files"]],
+                            blocked=[b.encode("latin-1") for b in cn["blocked"]], dir=cn["dir"],
+                            dirblocked=cn["dirblocked"], senddata=cn["senddata"], overwrite=cn["overwrite"])
+                       for cn in j["conns"]])
+
+
+def run_multi(ctx, exe, cases, cnt, var, cov, dist):
+    """K receivers as threads of one process (the real pcp_server() per connection, like dsh.c _rcp_thread), all
+    connections open at once, input interleaved chunk-wise.
+    oracle (receivers are independent): the replies on connection i equal those of the SAME real receiver fed the
+    same bytes alone in a process of its own; correspondence: replies per connection and the joint destination
+    directory equal the model runs (one per connection, destinations' names are disjoint)."""
+    jbase = os.path.join(ctx.scratch, "jails_multi")
+    shutil.rmtree(jbase, ignore_errors=True)
+    os.makedirs(jbase)
+    ops, mlines, index = [], [], []
+    for c in cases:
+        ents = multi_ents(c)
+        c["ents"] = ents
+        j = os.path.join(jbase, "m%d" % c["k"])
+        pcp.build_jail(j, ents)
+        c["jail"] = j
+        streams = [multi_stream(c, cn) for cn in c["conns"]]
+        ops.append(["multi %s /%s %d 1 %o %d %s %s" % (j, CWD.decode(), c["p"], c["um"], len(streams), " ".join(
+            "%s %s" % (hx(b"dest"), ",".join(hx(x) for x in chunks)) for chunks in streams),
+            "%d:%d" % c["race"] if c.get("race") else "-")])
+        index.append((c, None))
+        mc = dict(p=c["p"], y=1, um=c["um"], dest=b"dest", stream=b"")
+        mlines.append(c12_model_line(mc, ents, cnt, var))
+        for i, chunks in enumerate(streams):
+            js = os.path.join(jbase, "m%ds%d" % (c["k"], i))
+            pcp.build_jail(js, ents)
+            s = b"".join(chunks)
+            ops.append(["sink %s /%s %s %d 1 %o 0 0 %s" % (js, CWD.decode(), hx(b"dest"), c["p"], c["um"], hx(s))])
+            index.append((c, i))
+            mlines.append(c12_model_line(dict(mc, stream=s), ents, cnt, var))
+    t0 = int(time.time())
+    impl = run_batch([exe], ops, timeout=1800, env=dict(os.environ, ASAN_OPTIONS="detect_leaks=0"))
+    mans = ctx.model("pcp", "".join(l + "\n" for l in mlines), timeout=1800)
+    res = {}
+    for (c, i), (ans, crash), ml in zip(index, impl, mans):
+        res.setdefault(c["k"], {})[i] = (pcp.fields(ans[0]) if ans else {}, crash, pcp.parse_model(ml))
+    for c in cases:
+        cov["evaluations"] += 1
+        dist["multi_cases"] = dist.get("multi_cases", 0) + 1
+        cj = multi_json(c)
+        f, crash, minit = res[c["k"]][None]
+        if f.get("sig") == "997":
+            cov["evaluations"] -= 1
+            dist["skipped_after_timeouts"] = dist.get("skipped_after_timeouts", 0) + 1
+            continue
+        if crash is not None or "to" not in f:
+            ctx.disagreement("pcp harness", "multi: harness failed: %s %s" % (str(f)[:200], str(crash)[-300:]), cj)
+            continue
+        if f["to"] != "0" or f["sig"] == "998":
+            ctx.offender("timeout", "receivers of %d connections in one process: not finished after 8 s" % len(c["conns"]), cj)
+            continue
+        if f["san"] != "0" or f["sig"] != "0" or f["rc"] != "0":
+            ctx.offender("crash", "receivers in one process: rc=%s sig=%s sanitizer=%s: %s" % (
+                f["rc"], f["sig"], f["san"], pcp.unhx(f["err"]).decode("latin-1")[:300]), cj)
+            continue
+        nerrconn = 0
+        merged = dict(minit["fs"])
+        bad = False
+        raced = bool(c.get("race")) and f.get("parked") == "1"
+        if raced:
+            dist["multi_overlapping_errors"] = dist.get("multi_overlapping_errors", 0) + 1
+            # the narrow class of F11-ERRFP-RACE: the parked receiver's first error record, and nothing else, has
+            # moved to the connection of the receiver that opened its reply stream last; all other replies are
+            # those of the receivers running alone
+            a = c["race"][0]
+            real = [pcp.unhx(f["r%d" % x]) for x in range(len(c["conns"]))]
+            solo = [pcp.unhx(res[c["k"]][x][0].get("replies", "-")) for x in range(len(c["conns"]))]
+            k1 = solo[a].find(b"\x01")
+            rec = solo[a][k1:solo[a].find(b"\n", k1) + 1] if k1 >= 0 else b""
+            others = [x for x in range(len(real)) if x != a and real[x] != solo[x]]
+            if rec and real[a] == solo[a][:k1] + solo[a][k1 + len(rec):] and len(others) == 1 and any(
+                    real[others[0]][:x] + real[others[0]][x + len(rec):] == solo[others[0]]
+                    for x in range(len(real[others[0]])) if real[others[0]].startswith(rec, x)):
+                b = others[0]
+                dist["multi_overlapping_errors_cross_routed"] = dist.get("multi_overlapping_errors_cross_routed", 0) + 1
+                ctx.offender("independent:overlapping-errors-cross-route",
+                             "two receivers of one process inside _error() at the same time (receiver %d parked after "
+                             "opening its reply stream while receiver %d opened its own): the record %r of host %s was "
+                             "written to the connection of host %s, its own peer got no answer" % (
+                                 a, b, rec, c["conns"][a]["host"].decode(), c["conns"][b]["host"].decode()),
+                             dict(cj, replies_a=repr(real[a][:200]), replies_b=repr(real[b][:200])))
+                continue
+        for i, cn in enumerate(c["conns"]):
+            fs_, crash_s, m = res[c["k"]][i]
+            real = pcp.unhx(f["r%d" % i])
+            if crash_s is not None or "replies" not in fs_:
+                ctx.disagreement("pcp harness", "multi: solo run failed: %s" % str(fs_)[:200], cj)
+                bad = True
+                continue
+            solo = pcp.unhx(fs_["replies"])
+            if b"\x01" in solo:
+                nerrconn += 1
+            if real != solo:
+                cj = dict(cj, connection=i, replies_in_one_process=repr(real[:300]), replies_alone=repr(solo[:300]))
+                ctx.offender("independent:replies-depend-on-other-connections",
+                             "connection %d (host %s) of %d receivers in one process got the replies %r, the same receiver "
+                             "fed the same bytes alone answers %r" % (i, cn["host"].decode(), len(c["conns"]), real[:200],
+                                                                     solo[:200]), cj)
+                bad = True
+                continue
+            if pcp.canon_replies(real) != m["replies"]:
+                ctx.disagreement("pcp multi replies", "connection %d: real %s model %s" % (
+                    i, pcp.canon_replies(real)[:20], m["replies"][:20]), cj)
+                bad = True
+            for path, v in m["fs"].items():
+                if v != minit["fs"].get(path):
+                    if path in merged and merged[path] != minit["fs"].get(path) and merged[path] != v:
+                        ctx.disagreement("pcp multi generator", "two connections change %r" % path, cj)
+                    merged[path] = v
+        if nerrconn >= 2:
+            dist["multi_errors_on_2+_connections"] = dist.get("multi_errors_on_2+_connections", 0) + 1
+        if bad:
+            continue
+        diffs = pcp.compare_fs(merged, pcp.snapshot(c["jail"]), t0)
+        if diffs:
+            ctx.disagreement("pcp multi fs", "; ".join(diffs[:5]), cj)
+    shutil.rmtree(jbase, ignore_errors=True)
+
+
 def probe_sender(ctx, exe):
     """which sender is in /repo?  ssec = the T record carries microseconds (repair of F11-MTIME-SUBSEC);
     sfix = a source the user names like the sentinel is sent as a file (repair of F11-SENTINEL-NAME)"""
@@ -818,7 +1047,9 @@ def run(ctx):
                    "3*8192-1..+1 and random small, names with blanks, shell metacharacters, control and non-ASCII bytes "
                    "(no newline, no slash), all 12 mode bits, 1-3 sources given directly or through a sub-path, -p on/off, "
                    "forward and reverse (.host) naming, destination fresh / given as dir, dir/, absolute, new file name; "
-                   "a few cases with an entry of the wrong kind already in the way; non-trivial = the tree holds >= 1 "
+                   "a few cases with an entry of the wrong kind already in the way; plus 2-4 receivers in one process (same "
+                   "name list from every host, `.host` names in one directory, on 0..K hosts a name is occupied by a "
+                   "directory, input cut at records or at random places); non-trivial = the tree holds >= 1 "
                    "directory and a file >= 8192 bytes; distinct = distinct model input line"}
     dist = {"all_acks": 0, "with_error_replies": 0, "conflict_cases": 0, "overwrite_cases": 0, "spec_failures": 0, "model_mismatch": 0,
             "with_dir_and_big_file": 0, "signatures": {}}
@@ -833,16 +1064,28 @@ def run(ctx):
             "yes" if var["ssec"] else "no", "yes" if var["sfix"] else "no")
         ctx.log("variants:", dist["receiver_variant"], "|", dist["sender_variant"])
         n = 250 if ctx.quick() else 6000
-        cases = []
+        cases, mcases = [], []
         if ctx.replay:
             import json
             rc = json.load(open(ctx.replay)).get("case", {})
             if "sources" in rc and not rc.get("e2e"):      # the pinned end-to-end runs are repeated by every run
                 cases.append(from_json(rc, 0))
+            if rc.get("multi"):
+                mcases.append(multi_from_json(rc, 0))
         cases += corpus(len(cases))
         cases += [gen_case(rng, len(cases) + i, ctx.quick()) for i in range(n)]
         for i in range(0, len(cases), 500):
             run_cases(ctx, exe, cases[i:i + 500], cnt, var, cov, dist, distinct)
+        mcases += multi_corpus(len(mcases))
+        mcases += [gen_multi(rng, len(mcases) + i) for i in range(40 if ctx.quick() else 800)]
+        for i in range(0, len(mcases), 200):
+            run_multi(ctx, exe, mcases[i:i + 200], cnt, var, cov, dist)
+        ctx.log("receivers in one process: %d cases, %d with errors on >= 2 connections, %d with two overlapping "
+                "_error() calls" % (dist.get("multi_cases", 0), dist.get("multi_errors_on_2+_connections", 0),
+                                    dist.get("multi_overlapping_errors", 0)))
+        dist["error_stream_variant"] = ("shared by all receivers of the process (static FILE *fp): overlapping _error() calls "
+                                        "cross-route" if dist.get("multi_overlapping_errors_cross_routed") else
+                                        "per call: overlapping _error() calls keep their own connection")
         if os.environ.get("VERIF_C11_E2E", "1") != "0":
             run_e2e(ctx, cov, dist)
     cov["distinct_nontrivial"] = len(distinct)
@@ -854,7 +1097,9 @@ def run(ctx):
                      "than BUFSIZ (names <= NAME_MAX)", "source modification times are non-negative",
                      "client and server run as root: no permission failures; I/O errors only as injected write faults "
                      "(receiver under RLIMIT_FSIZE)",
-                     "each target is served by the same client code on its own connection (threads/transport: C03, C09)",
+                     "each target is served by the same client code on its own connection; the receivers of several targets "
+                     "as threads of one process are exercised with deterministic chunk-wise interleaving (not with "
+                     "simultaneous execution of two receivers; transport/threads: C03, C09)",
                      "file-system semantics as in Pcp/FS.lean (see C12)"],
         trusted_base=["Lean 4.33 kernel", "axioms: propext, Classical.choice, Quot.sound at most (audited per theorem)",
                       "hand-written models Pcp/Send.lean, Pcp/Sink.lean, Pcp/FS.lean tied to pcp_client.c/pcp_server.c and "
